@@ -50,6 +50,9 @@ op_next = st.tuples(st.just("next"))
 op_shut = st.tuples(st.just("shutdown"))
 # a post to an unregistered computation that "another thread" registers right after post_msg found it unknown and
 # before post_msg parked the message (the harness performs the registration when post_msg subscribes to the computation)
+# a backlog: several posts in a row (expanded before the run), mostly to the destinations registered from the start
+op_burst = st.tuples(st.just("burst"), st.integers(0, 2), st.sampled_from([0, 0, 1, 2]), st.sampled_from(TYPES),
+                     st.integers(2, 5))
 op_post_race = st.tuples(st.just("post_race_reg"), st.integers(0, 2), st.integers(0, 2), st.sampled_from(TYPES))
 
 
@@ -60,9 +63,15 @@ def seq_cases(draw):
     if draw(st.integers(0, 3)) == 0:
         pool = st.one_of(op_post, op_post, op_post, op_post, op_reg, op_reg_race, op_post_race, op_next, op_next)
     else:
-        pool = st.one_of(op_post, op_post, op_post, op_reg, op_next, op_next)
+        pool = st.one_of(op_post, op_post, op_burst, op_reg, op_next, op_next, op_next)
     ops = draw(st.lists(pool, min_size=1, max_size=40))
-    ops = [list(o) for o in ops]
+    expanded = []
+    for o in ops:
+        if o[0] == "burst":
+            expanded += [["post", o[1], o[2], o[3]] for _ in range(o[4])]
+        else:
+            expanded.append(list(o))
+    ops = expanded[:60]
     if draw(st.integers(0, 2)) == 0:
         pos = draw(st.integers(0, len(ops)))
         ops.insert(pos, ["shutdown"])
@@ -77,7 +86,7 @@ def thread_cases(draw):
     progs = []
     for _ in range(nthreads):
         progs.append(draw(st.lists(st.tuples(st.integers(0, 2), st.sampled_from(TYPES), st.integers(0, 3)),
-                                   min_size=1, max_size=25)))
+                                   min_size=1, max_size=15)))
     return {"mode": "threads",
             "preload": draw(st.lists(st.tuples(st.integers(0, 1), st.sampled_from(TYPES)), max_size=8)),
             "programs": [[list(p) for p in prog] for prog in progs],
@@ -85,11 +94,29 @@ def thread_cases(draw):
             "late_after_ms": draw(st.integers(0, 6)),
             "switch_us": draw(st.sampled_from([5, 50, 500, 5000])),
             "reg_delay_us": draw(st.sampled_from([0, 0, 200, 1000])),
-            "after_shutdown_posts": draw(st.integers(0, 3))}
+            "after_shutdown_posts": draw(st.integers(0, 3)),
+            # a periodic action registered on the agent and lasting this many ms (0: none): posts and the shutdown
+            # request can then arrive while the agent thread is inside it
+            "periodic_ms": draw(st.sampled_from([0, 0, 3, 20])),
+            "tail_pause_ms": draw(st.sampled_from([0, 0, 70, 120]))}
+
+
+@st.composite
+def backlog_cases(draw):
+    """Sequential histories built around a backlog: a run of same-type posts, some fetches, more posts, fetches ..."""
+    ops = []
+    ty = draw(st.sampled_from(TYPES))
+    for _ in range(draw(st.integers(1, 4))):
+        n = draw(st.integers(2, 6))
+        s, d = draw(st.integers(0, 2)), draw(st.integers(0, 1))
+        ops += [["post", s, d, ty if draw(st.integers(0, 3)) else draw(st.sampled_from(TYPES))] for _ in range(n)]
+        ops += [["next"] for _ in range(draw(st.integers(1, n)))]
+    ops += [["post", draw(st.integers(0, 2)), draw(st.integers(0, 1)), ty]]
+    return {"mode": "seq", "pre_registered": [0, 1], "ops": ops}
 
 
 def case_strategy(tier):
-    return st.one_of(seq_cases(), seq_cases(), thread_cases())
+    return st.one_of(seq_cases(), seq_cases(), backlog_cases(), thread_cases())
 
 
 # --------------------------------------------------------------------------- (a) sequential, model based
@@ -337,7 +364,10 @@ def run_threads(case):
 
         def sender_main(k, prog):
             try:
-                for d, ty, nap in prog:
+                for i, (d, ty, nap) in enumerate(prog):
+                    if k == 0 and i == len(prog) - 1 and case.get("tail_pause_ms"):
+                        # the agent goes idle (its polls time out after 50 ms) before the last message arrives
+                        time.sleep(case["tail_pause_ms"] / 1000.0)
                     post("t%d" % k, DESTS[d], ty, "run")
                     if nap:
                         time.sleep(nap * 0.0002)
@@ -347,6 +377,9 @@ def run_threads(case):
         threads = [threading.Thread(target=sender_main, args=(k, prog), daemon=True)
                    for k, prog in enumerate(case["programs"])]
         with under_test():
+            if case.get("periodic_ms"):
+                agent.set_periodic_action(case["periodic_ms"] / 1000.0 * 1.25,
+                                          lambda: time.sleep(case["periodic_ms"] / 1000.0))
             agent.start()
         for t in threads:
             t.start()
